@@ -323,6 +323,14 @@ class C02(ClientProp):
                 [op1(rng, "create_schedule", sched_args(rng, z, int(t0), ["ok", "list", "dup", "badclock"][k % 4])) for k in range(40)]
             for ci, ch in enumerate(chunks(ops, 25)):
                 out.append(one(rng, 1, ch, zone=z, t0=t0 - t0 % 60 + SECOND_OFFSETS[ci % len(SECOND_OFFSETS)]))
+        # schedules created shortly after and shortly before local midnight (the local date is not the UTC date then), in zones east
+        # and west of UTC, on ordinary days and on the days of a clock change
+        for zi, z in enumerate(ZONES_ALL if not ctx.quick else ["Asia/Jerusalem", "America/New_York", "Pacific/Kiritimati", "Pacific/Pago_Pago", "Australia/Lord_Howe"]):
+            for (mo, dd) in ((6, 15), (3, 27), (11, 1)):
+                for (hh, mm) in ((0, 20), (23, 40)):
+                    t0 = float(local_instant(z, 2026, mo, dd, hh, mm)) + SECOND_OFFSETS[(zi + hh) % len(SECOND_OFFSETS)]
+                    ops = [op1(rng, "create_schedule", sched_args(rng, z, int(t0), ["ok", "list", "ok"][k % 3])) for k in range(ctx.pick(4, 12))]
+                    out.append(one(rng, 1, ops, zone=z, t0=t0))
         for ch in chunks(grid_type2_ops(ctx, rng), 25):
             out.append(one(rng, 2, ch))
         return out
